@@ -128,7 +128,9 @@ def type_features(mod, t, _seen=None, depth=0):
     out = set()
     _seen = _seen if _seen is not None else set()
 
-    def walk(t, d):
+    def walk(t, d, named=False):
+        if named and t.kind in ("UTCTime", "GeneralizedTime"):
+            out.add("time.named")
         if t.tag:
             out.add("tag")
             if t.tag[1] >= 31:
@@ -140,7 +142,7 @@ def type_features(mod, t, _seen=None, depth=0):
                 out.add("recursive")
                 return
             _seen.add(t.ref)
-            walk(mod.lookup(t.ref), d)
+            walk(mod.lookup(t.ref), d, True)
             return
         out.add(k)
         if d >= 2:
@@ -162,6 +164,8 @@ def type_features(mod, t, _seen=None, depth=0):
             out.add("cons.size")
             if t.size.ext:
                 out.add("cons.ext")
+                if t.size.ub() is None or t.size.ub() >= 65536:
+                    out.add("size.ext.ub>=64K")
         if t.alpha:
             out.add("cons.from")
             cps = sorted({c for lo, hi in t.alpha.ranges for c in range(lo, hi + 1)})
@@ -171,6 +175,8 @@ def type_features(mod, t, _seen=None, depth=0):
                 out.add("from.sparse>255")
         if t.ext:
             out.add("ext." + k)
+            if k == "SEQUENCE" and not t.members:
+                out.add("seq.empty-ext")
         if t.named and k in ("INTEGER", "BITSTRING"):
             out.add("named." + k)
         for m in t.members:
@@ -183,7 +189,7 @@ def type_features(mod, t, _seen=None, depth=0):
             walk(m.type, d + 1)
         if t.elem:
             walk(t.elem, d + 1)
-    walk(t, depth)
+    walk(t, depth, True)
     return out
 
 
@@ -205,15 +211,25 @@ def value_features(mod, t, v, out=None):
     if k == "BITSTRING":
         data, n = v
         if n and not rt.named and not (data[(n - 1) // 8] >> (7 - (n - 1) % 8)) & 1:
-            fixed = rt.size and not rt.size.ext and len(rt.size.ranges) == 1 and rt.size.ranges[0][0] == rt.size.ranges[0][1]
+            fixed = rt.size and not rt.size.ext and len(rt.size.ranges) == 1 and rt.size.ranges[0][0] == rt.size.ranges[0][1] \
+                and rt.size.ranges[0][0] < 65536
             out.add("bits.trailing0.fixed" if fixed else "bits.trailing0")
         if rt.size and not rt.named and rt.size.lb() is not None and n < rt.size.lb():
             out.add("bits.trailing0")     # shorter than the root lower bound: the codec pads with 0 bits
+    elif k in ("NumericString", "PrintableString", "IA5String", "VisibleString", "ISO646String", "BMPString",
+               "UniversalString"):
+        if rt.size and rt.size.ext and not rt.size.contains_root(len(v)):
+            out.add("kmstr.size-ext-outside")
+    elif k in ("INTEGER", "ENUMERATED"):
+        if v > (1 << 63) - 1 or v < -(1 << 63):
+            out.add("int.beyond-long")
     elif k == "REAL":
         if v == v and v != 0 and abs(v) < 2.2250738585072014e-308:
             out.add("real.subnormal")
         if v != v:
             out.add("real.nan")
+        elif v not in (float("inf"), float("-inf")) and float("%.15f" % v) != v:
+            out.add("real.lossy15f")
     elif k in ("SEQUENCE", "SET"):
         for m in rt.members:
             if m.name in v:
